@@ -28,7 +28,8 @@ BUILTIN_POOL = ['int', 'len']
 # generator
 
 class Gen:
-    def __init__(self, r, execd, maxdepth=3, classes=True, funcs=True, comps=True):
+    def __init__(self, r, execd, maxdepth=3, classes=True, funcs=True, comps=True, mods=None):
+        self.mods = mods or MODS
         self.r, self.execd, self.maxdepth = r, execd, maxdepth
         self.classes, self.funcs, self.comps = classes, funcs, comps
 
@@ -166,14 +167,14 @@ class Gen:
 
     def imp(self):
         r = self.r
-        mod = r.choice(MODS)
+        mod = r.choice(self.mods)
         k = r.random()
         if not self.execd and k < .03:
             return ["from", mod, [["*", None]]]
         if k < .4:
             items = [[mod, None]]
             if r.random() < .1:
-                items.append([r.choice(MODS), None])
+                items.append([r.choice(self.mods), None])
             return ["import", items]
         if k < .55:
             return ["import", [[mod, r.choice(NAMES)]]]
@@ -328,16 +329,24 @@ def names_of(prog):
     return set(rec)
 
 
+RESERVED_IDS = {"*": 0, "__all__": 1000, "__class__": 2000, "__future__": 3000}
+
+
 def name_ids(prog, extra=()):
-    """ids monotone in Python string order; the four reserved spellings get 0..3"""
+    """ids monotone in Python string order; the four reserved spellings have fixed ids (PySyntax.v), every
+    other name gets an id in the gap where it sorts"""
     acc = set(extra) | names_of(prog)
     acc -= set(RESERVED)
-    user = sorted(acc)
-    for n in user:
-        assert n > "__future__", "name %r would sort among the reserved ids" % n
-    ids = {n: i for i, n in enumerate(RESERVED)}
-    for i, n in enumerate(user):
-        ids[n] = 4 + i
+    ids = dict(RESERVED_IDS)
+    bounds = sorted(RESERVED_IDS.items(), key=lambda kv: kv[1])
+    for n in sorted(acc):
+        assert n > "*", "name %r sorts before every reserved spelling" % n
+    for k, (rn, rid) in enumerate(bounds):
+        hi = bounds[k + 1][0] if k + 1 < len(bounds) else None
+        grp = sorted(n for n in acc if n > rn and (hi is None or n < hi))
+        assert len(grp) < 990
+        for j, n in enumerate(grp):
+            ids[n] = rid + 1 + j
     return ids
 
 
